@@ -111,7 +111,7 @@ fn check(kw: &str, unit: &str, value_text: &str, v: Option<u128>, sign: &str, ca
                 Tv::Agree { records, .. } => {
                     rep.count("executed_constant_exact");
                     rep.add("records_compared", records as u64);
-                    if rep.samples.len() < 6 && v.map_or(false, |v| near_boundary(v, mult)) {
+                    if rep.samples.is_empty() || (rep.samples.len() < 6 && v.map_or(false, |v| near_boundary(v, mult))) {
                         rep.sample(J::obj(vec![("input", J::s(&text)), ("verdict", J::s("tree number exact; executed policy agrees with the reference at value-1, value, value+1")), ("records", J::Int(records as i128))]));
                     }
                 }
@@ -152,14 +152,23 @@ pub fn run(ctx: &Ctx, rep: &mut Report) {
             }
         }
     });
-    let n = ctx.pick(20_000, 1_000_000);
+    let n = ctx.pick(20_000, 6_000_000);
     par_cases(ctx, "random", n, rep, |i, rep| {
         let mut r = Rng::for_case(ctx.seed, "random", i);
         let (kw, unit) = &combos[r.usize(combos.len())];
-        let digits = 1 + r.usize(40);
         let mut vt = String::new();
-        for _ in 0..digits {
-            vt.push((b'0' + r.below(10) as u8) as char);
+        if r.chance(1, 2) {
+            // within +-40 of a boundary of the field or of 2^64/unit
+            let mult = unit_mult(kw, unit);
+            let bs = [1u128 << 31, 1 << 32, 1 << 63, 1 << 64, ((1u128 << 64) - 1) / mult, (1u128 << 64) / mult, 1 << 16, 1 << 8];
+            let b = bs[r.usize(bs.len())];
+            let v = (b + r.below(81) as u128).saturating_sub(40);
+            vt = format!("{}{}", "0".repeat(if r.chance(1, 5) { r.usize(31) } else { 0 }), v);
+        } else {
+            let digits = 1 + r.usize(40);
+            for _ in 0..digits {
+                vt.push((b'0' + r.below(10) as u8) as char);
+            }
         }
         let v = vt.trim_start_matches('0').parse::<u128>().ok().or(Some(0));
         let s = if *kw == "-threads" { "" } else { signs[r.usize(3)] };
